@@ -502,8 +502,29 @@ func soup(r *rng.R, n int) string {
 	return string(b)
 }
 
+// fragments of version syntax in random order: exercises the hand-written matchers of the two
+// regular expressions against Go's regexp on near-versions (correspondence)
+var verFrags = []string{"1", "0", "23", ".", "a", "z", "_", "alpha", "beta", "pre", "rc", "p", "-r", "-", "r", "*", "4", "_p", "_pre", "x", "A", "+"}
+var nameFrags = []string{"a/b", "b", "a/b-c", "x11/lib-2", "c++/d+", "a-1/b", "a/b-1", "a/b_", "a/1", "A/B.", "a/b/c", "/b", "a/"}
+
+func versionSoup(r *rng.R) string {
+	var b strings.Builder
+	b.WriteString(r.Pick([]string{"=", "=", "", "~", ">=", "<", "!="}))
+	b.WriteString(r.Pick(nameFrags))
+	b.WriteString("-")
+	for n := 1 + r.Heavy(7); n > 0; n-- {
+		b.WriteString(r.Pick(verFrags))
+	}
+	if r.Chance(1, 4) {
+		b.WriteString(r.Pick([]string{":0", ":=", "::r", "[x]", ":1/2="}))
+	}
+	return b.String()
+}
+
 func negAtom(r *rng.R) (string, string) {
-	switch r.Intn(5) {
+	switch r.Intn(6) {
+	case 5:
+		return versionSoup(r), "version-soup"
 	case 0:
 		return r.Pick(atomSoup), "listed"
 	case 1:
